@@ -128,10 +128,20 @@ Inductive rule : Type :=
 | RProduct (o : orule)                    (* Rule with a CartesianProduct constructor *)
 | RRevUnion (o : orule) (idx : nat)       (* ReverseRule(rule, idx): Complement *)
 | RRevProduct (o : orule) (idx : nat)     (* ReverseRule(rule, idx): Quotient *)
-| REquivUnion (o : orule) (cidx : nat)    (* EquivalenceRule(union rule), child_idx = cidx *)
+| REquivUnion (o : orule) (cidx : nat)    (* EquivalenceRule(union rule), child_idx = cidx; also EquivalenceRule of a
+                                             product rule with a SINGLE factor (fix 25e10f1: it counts like a union
+                                             with a single child, the constructor is DisjointUnion(.., (ep[0],))) *)
 | REquivRev (c p : Z) (ep : list (Z * Z)) (* EquivalenceRule(ReverseRule(union rule)): class c = class p *)
+| REquivRevProduct (c p : Z)              (* EquivalenceRule(ReverseRule(product rule with a single factor)): the
+                                             original constructor is a Quotient, EquivalenceRule.constructor raises
+                                             NotImplementedError whatever the dictionaries *)
 | RPath (p : Z) (steps : list (bool * list (Z * Z))) (c : Z)
-                                          (* EquivalencePathRule: per step (constructor is Complement?, extra_parameters[0]) *)
+                                          (* EquivalencePathRule: per step (constructor is Complement or Quotient?,
+                                             extra_parameters[0]); a single-factor product step is composed like a
+                                             union step, its reverse like a Complement step (fix 25e10f1) *)
+| RPathNoCtor (p c : Z)                   (* EquivalencePathRule one of whose steps has no constructor
+                                             (EquivalenceRule of a reversed single-factor product):
+                                             EquivalencePathRule.constructor raises NotImplementedError *)
 | RAtom (c : Z) (m : Z)                   (* VerificationRule, AtomStrategy, minimum size m *)
 | REmpty (c : Z)                          (* VerificationRule, EmptyStrategy *)
 | RVerified (c : Z).                      (* VerificationRule of a user strategy with its own get_genf *)
@@ -141,7 +151,9 @@ Definition rule_class (r : rule) : Z :=
   | RUnion o | RProduct o | REquivUnion o _ => o_parent o
   | RRevUnion o idx | RRevProduct o idx => nth idx (o_children o) (-1)
   | REquivRev c _ _ => c
+  | REquivRevProduct c _ => c
   | RPath p _ _ => p
+  | RPathNoCtor p _ => p
   | RAtom c _ | REmpty c | RVerified c => c
   end.
 
@@ -192,11 +204,13 @@ Definition rule_equation (r : rule) : result :=
   | REquivRev c p ep =>
       (* Complement(children[0], (comb_class,), 0, (ep,)); no fallback *)
       complement_equation (cfun c) [cfun p] [ep]
+  | REquivRevProduct _ _ => NotImpl
   | RPath p steps c =>
       match path_eps (pars p) steps with
       | None => NotImpl
       | Some ep => union_equation (cfun p) [cfun c] [ep]
       end
+  | RPathNoCtor _ _ => NotImpl
   | RAtom c m =>
       match pars c with [] => Ok (cfun c) (Pow (Var 0) m) | _ => NotImpl end
   | REmpty c => Ok (cfun c) (Const 0)
